@@ -141,6 +141,12 @@ func scenarioRules(linkBase string) map[string]string {
 // scenarioEnableList: names put into a rule{enable=[...]} block by this variant. The documentation says such a
 // block overrides checks{disabled} (and so --disabled / --offline) while rule{disable} takes precedence over it.
 func scenarioEnableList(variant int) []string {
+	if variant >= 16 {
+		variant -= 16
+	}
+	if variant >= 8 {
+		variant -= 8
+	}
 	if variant%4 >= 2 {
 		return []string{"rule/report", "rule/name", "promql/series", "alerts/for", "rule/link"}
 	}
@@ -150,9 +156,23 @@ func scenarioEnableList(variant int) []string {
 // scenarioConfig instantiates every configurable check kind. variant changes incidental
 // structure (locked blocks, enable lists, tags) without changing which checks exist.
 func scenarioConfig(promURI string, variant int) string {
+	// variants 16..: two Prometheus servers (prom tagged prod, promb tagged dev) serving the same data
+	twoServers := variant >= 16
+	if twoServers {
+		variant -= 16
+	}
+	// variants 8..: only the FIRST rule block is locked, the blocks after it are not
+	mixed := variant >= 8
+	if mixed {
+		variant -= 8
+	}
 	locked := ""
 	if variant%2 == 1 {
 		locked = "  locked = true\n"
+	}
+	locked1 := locked
+	if mixed {
+		locked, locked1 = "", "  locked = true\n"
 	}
 	tags := ""
 	if variant%3 == 2 {
@@ -161,7 +181,13 @@ func scenarioConfig(promURI string, variant int) string {
 	var b strings.Builder
 	if promURI != "" {
 		b.WriteString("check \"promql/series\" {\n  lookbackRange = \"6h\"\n  lookbackStep = \"5m\"\n}\n")
+		if twoServers {
+			tags = "  tags = [\"prod\"]\n"
+		}
 		fmt.Fprintf(&b, "prometheus \"prom\" {\n  uri = %q\n  timeout = \"30s\"\n%s}\n", promURI, tags)
+		if twoServers {
+			fmt.Fprintf(&b, "prometheus \"promb\" {\n  uri = %q\n  timeout = \"30s\"\n  tags = [\"dev\"]\n}\n", strings.Replace(promURI, "127.0.0.1", "localhost", 1))
+		}
 	}
 	if len(scenarioEnableList(variant)) > 0 {
 		q := make([]string, 0, 5)
@@ -214,7 +240,7 @@ rule {
     severity = "warning"
   }
 }
-`, locked, locked)
+`, locked1, locked)
 	if promURI != "" {
 		fmt.Fprintf(&b, `rule {
 %s  cost {
